@@ -1,8 +1,10 @@
 package rules
 
 import (
+	"fmt"
 	"go/token"
 	"go/types"
+	"os"
 	"sort"
 	"strings"
 
@@ -429,6 +431,10 @@ func ruleSentinelIdentity(c *eng.Ctx, rule string, roots []string, why string) i
 	n := 0
 	for _, s := range sentinelSites(c.P) {
 		if len(roots) > 0 && !scope[s.Fn] {
+			if os.Getenv("LBCHECK_SENT_DUMP") != "" {
+				origins, resolved, wraps, _ := sentinelVerdict(c.P, s)
+				fmt.Fprintf(os.Stderr, "SENT-DUMP %s in %s at %s tolerant=%v origins=%d resolved=%v wraps=%d\n", s.Name, ir.FuncKey(s.Fn), c.Pos(s.At), s.Tolerant, len(origins), resolved, len(wraps))
+			}
 			continue
 		}
 		if s.Tolerant {
